@@ -91,6 +91,71 @@ func genC16(cfg Config, emit Emit) error {
 		}
 		return s
 	}
+	// near the literals the rules single out: one or two edits (case change, insertion, deletion,
+	// replacement, doubling, percent-escapes) of patterns and of claims derived from them
+	lits := []string{"ucan:*", "*", "store/*", "store/add", "did:key:z6MkAlice", "did:key:z6Mk*", "https://example.com/a/*", "file:///alice/*", "x/y/*", "a*", "did:*"}
+	extra := []string{"?", "#", "%", "%2A", "%2a", "%2F", "%3A", "%41", "%", "%zz", " ", "\t", "/", "*", ":", ".", "+", "\\", "U", "x", "?x", "#f", "//", "**", "\x00", "é"}
+	edit := func(s string) string {
+		if len(s) == 0 {
+			return extra[cfg.Rng.Intn(len(extra))]
+		}
+		i := cfg.Rng.Intn(len(s) + 1)
+		switch cfg.Rng.Intn(7) {
+		case 0: // insert
+			return s[:i] + extra[cfg.Rng.Intn(len(extra))] + s[i:]
+		case 1: // delete
+			if i < len(s) {
+				return s[:i] + s[i+1:]
+			}
+			return s[:len(s)-1]
+		case 2: // change case of one letter
+			if i < len(s) {
+				return s[:i] + strings.ToUpper(s[i:i+1]) + s[i+1:]
+			}
+			return strings.ToUpper(s)
+		case 3: // replace a character by its percent-escape
+			if i < len(s) {
+				return s[:i] + "%" + strings.ToUpper(hexTok([]byte{s[i]})) + s[i+1:]
+			}
+			return s + "%2A"
+		case 4: // double a character
+			if i < len(s) {
+				return s[:i] + s[i:i+1] + s[i:]
+			}
+			return s + s[len(s)-1:]
+		case 5: // append
+			return s + extra[cfg.Rng.Intn(len(extra))]
+		}
+		return strings.ToUpper(s)
+	}
+	nn := 20000
+	if cfg.Thorough() {
+		nn = 300000
+	}
+	for i := 0; i < nn; i++ {
+		base := lits[cfg.Rng.Intn(len(lits))]
+		p := base
+		if cfg.Rng.Intn(3) != 0 {
+			p = edit(p)
+			if cfg.Rng.Intn(4) == 0 {
+				p = edit(p)
+			}
+		}
+		var c string
+		switch cfg.Rng.Intn(5) {
+		case 0:
+			c = p
+		case 1:
+			c = strings.TrimSuffix(base, "*") + []string{"secret", "add", "", "x/y", "%2A"}[cfg.Rng.Intn(5)]
+		case 2:
+			c = edit(strings.TrimSuffix(p, "*") + "doc")
+		case 3:
+			c = edit(base)
+		default:
+			c = lits[cfg.Rng.Intn(len(lits))]
+		}
+		emit("c16r", []string{hexTok([]byte(p)), hexTok([]byte(c))}, "near-literal", true)
+	}
 	for i := 0; i < nr; i++ {
 		p := mk()
 		var c string
